@@ -4,6 +4,7 @@
 #include <thread>
 #include <new>
 #include <algorithm>
+#include <system_error>
 
 namespace seq {
 
@@ -822,8 +823,10 @@ static void do_remote_free_batch(State& S) {
     ptrs.push_back(b->p); S.sm.remove(b);
   }
   vf_cur_what = "remote_free_batch";
-  std::thread t([&ptrs]() { for (void* p : ptrs) mi_free(p); });
-  t.join();
+  try {
+    std::thread t([&ptrs]() { for (void* p : ptrs) mi_free(p); });
+    t.join();
+  } catch (const std::system_error& e) { vf_trip("harness", "", "cannot create a thread: %s", e.what()); }
   S.pending_remote = true;
   S.n_remote_batches++; S.ep_count[EP_remote_free_batch]++; S.n_free += ptrs.size();
   hmix(S, 0xD0 + ptrs.size());
@@ -838,6 +841,7 @@ static void do_thread_alloc_exit(State& S) {
   uint64_t tseed = rnd(S);
   size_t cap = (S.cfg.size_cap ? (size_t)S.cfg.size_cap : 256 * KiB);
   vf_cur_what = "thread_alloc_exit";
+  try {
   std::thread t([&]() {
     vf_rng_t r; vf_rng_seed(&r, tseed);
     for (size_t i = 0; i < k; i++) {
@@ -851,6 +855,7 @@ static void do_thread_alloc_exit(State& S) {
     for (size_t i = 0; i < out.size(); ) { if (vf_rng_chance(&r, 1, 3)) { memset(out[i].p, 0xEE, out[i].n); mi_free(out[i].p); out[i] = out.back(); out.pop_back(); } else i++; }
   });
   t.join();
+  } catch (const std::system_error& e) { vf_trip("harness", "", "cannot create a thread: %s", e.what()); }
   for (auto& tb : out) {
     accept_block(S, tb.p, tb.n, -1, 0, 0, tb.zero, tb.zero ? EP_zalloc : EP_malloc);
     S.foreign_live++; S.n_foreign++;
